@@ -12,7 +12,11 @@ DURS = ["std::chrono::nanoseconds", "std::chrono::microseconds", "std::chrono::m
 
 def emit_tu(rep, unit_exprs, units):
     inc = "\n".join(f'#include "{h}"' for h in sorted({u.header for u in units.values()}))
-    L = [f'#include "au/au.hh"\n{inc}\n#include "vf_wrapper.hh"\n#include <chrono>\n', f"using R = {rep};", "int main(int argc, char **argv) {",
+    L = [f'#include "au/au.hh"\n{inc}\n#include "vf_wrapper.hh"\n#include <chrono>\n', f"using R = {rep};",
+         "struct VfFixA { long long v; VfFixA() : v(-7) {} VfFixA(int x) : v(x) {} VfFixA(double x) : v((long long)x) {} VfFixA(long long x) : v(x) {} };",
+         "struct VfFixB { double v; VfFixB() : v(-7) {} template <typename T, typename = std::enable_if_t<std::is_arithmetic<T>::value>> VfFixB(T x) : v((double)x) {} };",
+         "struct VfFixC { int v; VfFixC() : v(-7) {} VfFixC(int x) : v(x) {} };",
+         "int main(int argc, char **argv) {",
          "  vf::install_handlers();", '  auto U = [&](int i) { return argc > i ? strtoull(argv[i], 0, 10) : 0ull; };']
     for i, (name, expr) in enumerate(unit_exprs):
         L.append(f'  {{ using namespace au; vfw::run_zero<decltype({expr}), R>({i}, "{rep}", "{name}", U(1), U(2) + {i}); }}')
@@ -25,6 +29,10 @@ def emit_tu(rep, unit_exprs, units):
         L.append(f'    {{ {t} v = au::ZERO; n++; if (!(v == ({t})0)) bad++; {t} w{{au::ZERO}}; n++; if (!(w == ({t})0)) bad++; }}')
     for t in DURS:
         L.append(f'    {{ {t} d = au::ZERO; n++; if (d.count() != 0) bad++; }}')
+    # durations whose Rep is a class type emulating an arithmetic type (the standard allows it): several arithmetic constructors,
+    # a constrained template constructor, a single constructor
+    L.append('    { std::chrono::duration<VfFixA> d = au::ZERO; n++; if (!(d.count().v == 0)) bad++; std::chrono::duration<VfFixB, std::milli> e = au::ZERO; n++; if (!(e.count().v == 0)) bad++;'
+             ' std::chrono::duration<VfFixC, std::ratio<60>> f = au::ZERO; n++; if (!(f.count().v == 0)) bad++; std::chrono::duration<VfFixA> g{au::ZERO}; n++; if (!(g.count().v == 0)) bad++; }')
     L.append('    printf("{\\"ev\\":\\"zconv\\",\\"n\\":%llu,\\"bad\\":%llu}\\n", n, bad); }')
     L += ["  vf::print_traps_json(); vf::print_diag_json();", '  printf("{\\"ev\\":\\"done\\"}\\n");', "  return 0;", "}"]
     return "\n".join(L) + "\n"
